@@ -7,6 +7,7 @@ import os
 import tomllib
 from abc import ABC
 from collections.abc import Callable
+from copy import copy
 from enum import Enum
 from pathlib import Path
 from typing import (
@@ -325,6 +326,9 @@ class GalliaBaseModel(BaseCommand, ABC):
 
         cls._config_section = config_section
         cls._cli_group = cli_group
+        cls._declared_arg_fields = {
+            attribute: info for attribute, info in vars(cls).items() if isinstance(info, ArgFieldInfo)
+        }
 
         for attribute, info in vars(cls).items():
             # Attribute specific annotation takes precedence
@@ -359,6 +363,24 @@ class GalliaBaseModel(BaseCommand, ABC):
                         description,
                         info.default,
                     )
+
+    @classmethod
+    def __pydantic_init_subclass__(cls, **kwargs: Any) -> None:
+        super().__pydantic_init_subclass__(**kwargs)
+
+        # Since pydantic 2.12, a field whose type is Annotated[...] (AutoInt, Ranges, HexBytes, EnumArg[...], ...)
+        # is rebuilt as a plain FieldInfo, which drops the CLI and config metadata of the declared field.
+        # Put the declared (Config)ArgFieldInfo back, carrying over the resolved annotation and metadata.
+        for attribute, declared in vars(cls).get("_declared_arg_fields", {}).items():
+            info = cls.model_fields.get(attribute)
+
+            if info is None or isinstance(info, ArgFieldInfo):
+                continue
+
+            restored = copy(declared)
+            restored.annotation = info.annotation
+            restored.metadata = list(info.metadata)
+            cls.model_fields[attribute] = restored
 
     @staticmethod
     def registry() -> dict[str, tuple[str, Any]]:
